@@ -21,7 +21,16 @@ pub fn all_atoms(f: &F) -> Vec<R> {
 }
 
 /// Reduced pool: one atom per kind, a dashed word, the placeholder (8 atoms).
-pub fn pool(_f: &F) -> Vec<R> {
+pub fn pool(f: &F) -> Vec<R> {
+    let mut v = pool_base();
+    if f.name == "han" {
+        // a name whose last character begins a two-character copula
+        v.push(R::word("乙将"));
+    }
+    v
+}
+
+fn pool_base() -> Vec<R> {
     vec![
         R::word("a"),
         R::word("x-y"),
